@@ -99,6 +99,20 @@ def build_unit(u):
 
 def expand(ob, tier):
     """foreach=V:1-64[,..] quick=V:1,8 -> list of (instance name, extra defs)"""
+    g = ob.opts.get('grid')
+    if g:
+        pts = json.load(open(os.path.join(HERE, 'contracts', 'grids.json')))[g]
+        out = []
+        for pt in pts:
+            if tier == 'quick' and not pt.get('quick'):
+                continue
+            if ob.opts.get('gridonly') and pt['name'] not in ob.opts['gridonly'].split('+'):
+                continue
+            defs = ['-D%s=%s' % kv for kv in sorted(pt['defs'].items())]
+            if 'unwind' in pt:
+                defs.append('@unwind=%d' % pt['unwind'])
+            out.append(('%s[%s]' % (ob.name, pt['name']), defs))
+        return out
     fe = ob.opts.get('foreach')
     if not fe:
         return [(ob.name, [])]
@@ -156,7 +170,7 @@ def trace_inputs(trace, entry):
         if lhs is None:
             continue
         data = v.get('data', v.get('name'))
-        if fn == entry:
+        if fn == entry or re.match(r'^(in|in_\w+)\b', lhs):
             vals[lhs] = data
     return vals
 
@@ -170,6 +184,8 @@ def run_ob(u, ob, inst, extra_defs, tier, use_cache=True, want_trace=True, reach
         return dict(base, status='error', reason=err, wall_s=0.0)
     o = ob.opts
     entry = o['entry']
+    grid_unwind = [d for d in extra_defs if d.startswith('@unwind=')]
+    extra_defs = [d for d in extra_defs if not d.startswith('@')]
     defs = [d for d in o.get('defs', '').split(',') if d] + extra_defs + (['-DREACH'] if reach else [])
     if tier == 'thorough' and o.get('tdefs'):
         defs += [d for d in o['tdefs'].split(',') if d]
@@ -189,6 +205,8 @@ def run_ob(u, ob, inst, extra_defs, tier, use_cache=True, want_trace=True, reach
     unwind = o.get('unwind')
     if tier == 'thorough' and o.get('tunwind'):
         unwind = o['tunwind']
+    if grid_unwind:
+        unwind = str(int(grid_unwind[0].split('=')[1]) + int(o.get('unwind_extra', 0)))
     if unwind:
         cb += ['--unwind', unwind, '--unwinding-assertions']
     if o.get('unwindset'):
@@ -252,10 +270,11 @@ def run_ob(u, ob, inst, extra_defs, tier, use_cache=True, want_trace=True, reach
                        reason=('cbmc out of memory / killed' if oom else 'cbmc produced no result') + ': ' + (se or so)[-800:])
         else:
             props = pj['result']
-            fails = [p for p in props if p.get('status') != 'SUCCESS']
+            fails = [p for p in props if p.get('status') == 'FAILURE']
+            unknown = [p for p in props if p.get('status') not in ('SUCCESS', 'FAILURE')]
             ign = [m for m in pj['messages'] if 'ignoring' in m]
             res['n_props'] = len(props)
-            res['n_success'] = len(props) - len(fails)
+            res['n_success'] = len([p for p in props if p.get('status') == 'SUCCESS'])
             res['prop_classes'] = _classes(props)
             res['failures'] = [dict(property=p['property'], description=p.get('description'), status=p.get('status'),
                                     location=_loc(p.get('sourceLocation'))) for p in fails]
@@ -263,6 +282,8 @@ def run_ob(u, ob, inst, extra_defs, tier, use_cache=True, want_trace=True, reach
                                    for p in _own(props, o)[:4]]
             if ign:
                 res.update(status='undecided', reason='solver ignored a quantifier: ' + ign[0])
+            elif unknown and not [p for p in fails if '.unwind.' not in p['property']]:
+                res.update(status='undecided', reason='solver returned %s for %d properties (solver error / out of memory)' % (unknown[0].get('status'), len(unknown)))
             elif not props:
                 res.update(status='error', reason='zero obligations generated (vacuous)')
             elif not fails:
@@ -529,14 +550,14 @@ def write_evidence(prop, tier, seed, main, reach, kf, known, wall, vio_n, undeci
     trusted = list(TRUSTED_ALWAYS)
     for un in sorted({r['unit'] for r in main}):
         u = load_units()[un]
-        for ln in u.pre + u.post:
+        for ln in u.pre0 + u.pre + u.post:
             m = re.match(r'\s*/\*\s*TRUSTED:\s*(.*?)\s*\*/', ln)
             if m:
                 trusted.append('%s: %s' % (un, m.group(1)))
     assumptions = list(CHECKS_OFF_ASSUMPTIONS)
     for un in sorted({r['unit'] for r in main}):
         u = load_units()[un]
-        for ln in u.pre + u.post:
+        for ln in u.pre0 + u.pre + u.post:
             m = re.match(r'\s*/\*\s*(ASSUMES|UNDECIDED):\s*(.*?)\s*\*/', ln)
             if m:
                 assumptions.append('%s [%s]: %s' % (m.group(1).lower(), un, m.group(2)))
